@@ -183,37 +183,75 @@ Proof.
         rewrite bern_mirror. rewrite Z2Nat.id by exact Hw. reflexivity.
 Qed.
 
-Lemma choose_some : forall hb w p, (0 <= p)%Q -> (p <= 1)%Q ->
-  choose hb w p = Some (choose_with binom_cdf hb w p).
+Lemma clamp_p_range : forall p, (0 <= p)%Q -> (0 <= clamp_p p)%Q /\ (clamp_p p <= 1)%Q.
 Proof.
-  intros hb w p H0 H1. unfold choose. rewrite (bad_p_false p H0 H1).
-  rewrite !andb_false_r. reflexivity.
+  intros p H0. unfold clamp_p. destruct (Qlt_bool 1 p) eqn:E.
+  - split; lra.
+  - apply Qlt_bool_false in E. split; assumption.
 Qed.
 
-(* C04 quantile, code as it stands, committee <= total *)
+Lemma clamp_p_id : forall p, (p <= 1)%Q -> clamp_p p = p.
+Proof.
+  intros p H1. unfold clamp_p.
+  assert (E : Qlt_bool 1 p = false) by (apply Qlt_bool_false; exact H1).
+  rewrite E. reflexivity.
+Qed.
+
+Lemma clamp_p_pos : forall p, (0 < p)%Q -> (0 < clamp_p p)%Q.
+Proof.
+  intros p H0. unfold clamp_p. destruct (Qlt_bool 1 p); lra.
+Qed.
+
+(* C04 quantile: for every committee/total > 0 the seat count is the quantile
+   of Binomial(stake, min(committee/total, 1)) *)
+Lemma choose_quantile_clamped : forall hb w p,
+  0 <= hb <= max_hash -> 0 <= w -> (0 < p)%Q ->
+  exists j, choose hb w p = Some j /\
+            is_quantile (bern (Z.to_nat w) (clamp_p p)) (target_of hb) w j.
+Proof.
+  intros hb w p Hhb Hw Hp. eexists. split; [reflexivity|].
+  apply choose_with_binom_quantile; try assumption.
+  - apply clamp_p_pos. exact Hp.
+  - apply clamp_p_range. lra.
+Qed.
+
 Lemma choose_quantile : forall hb w p,
   0 <= hb <= max_hash -> 0 <= w -> (0 < p)%Q -> (p <= 1)%Q ->
   exists j, choose hb w p = Some j /\
             is_quantile (bern (Z.to_nat w) p) (target_of hb) w j.
 Proof.
-  intros hb w p Hhb Hw Hp0 Hp1. eexists. split.
-  - apply choose_some; lra.
-  - apply choose_with_binom_quantile; assumption.
+  intros hb w p Hhb Hw Hp0 Hp1.
+  destruct (choose_quantile_clamped hb w p Hhb Hw Hp0) as (j & Hj & Hq).
+  exists j. split; [exact Hj|]. rewrite (clamp_p_id p Hp1) in Hq. exact Hq.
+Qed.
+
+(* totality at full strength: every hash, stake, committee size and total *)
+Lemma choose_total : forall hb w p, 0 <= w ->
+  exists j, choose hb w p = Some j /\ 0 <= j <= w.
+Proof.
+  intros hb w p Hw. eexists. split; [reflexivity|]. apply choose_with_range. exact Hw.
 Qed.
 
 Lemma choose_range : forall hb w p j, 0 <= w -> choose hb w p = Some j -> 0 <= j <= w.
 Proof.
-  intros hb w p j Hw H. unfold choose in H.
-  destruct (negb (hb =? max_hash) && (1 <=? hb) && (1 <=? w) && bad_p p); [discriminate|].
-  injection H as <-. apply choose_with_range. exact Hw.
+  intros hb w p j Hw H. unfold choose in H. injection H as <-.
+  apply choose_with_range. exact Hw.
 Qed.
 
-(* exactly when the Go function panics *)
-Lemma choose_none_iff : forall hb w p,
-  choose hb w p = None <->
+(* ---- the function before the repair (record of the finding) --------------- *)
+Lemma unrepaired_some : forall hb w p, (0 <= p)%Q -> (p <= 1)%Q ->
+  choose_unrepaired hb w p = Some (choose_with binom_cdf hb w p).
+Proof.
+  intros hb w p H0 H1. unfold choose_unrepaired. rewrite (bad_p_false p H0 H1).
+  rewrite !andb_false_r. reflexivity.
+Qed.
+
+(* exactly when the unrepaired Go function panicked *)
+Lemma unrepaired_none_iff : forall hb w p,
+  choose_unrepaired hb w p = None <->
   (hb <> max_hash /\ 1 <= hb /\ 1 <= w /\ ((p < 0)%Q \/ (1 < p)%Q)).
 Proof.
-  intros hb w p. unfold choose.
+  intros hb w p. unfold choose_unrepaired.
   destruct (negb (hb =? max_hash) && (1 <=? hb) && (1 <=? w) && bad_p p) eqn:E.
   - split; [intros _|reflexivity].
     rewrite !andb_true_iff in E. destruct E as (((E1 & E2) & E3) & E4).
@@ -228,13 +266,12 @@ Proof.
     rewrite Ha, Hb, Hc in E. discriminate E.
 Qed.
 
-(* the full-strength totality clause, its refutation on the code as it is, and
-   the statement outside the finding class *)
-Definition C04_total_full : Prop :=
+(* the totality clause, which the unrepaired function violated *)
+Definition total_for (ch : Z -> Z -> Q -> option Z) : Prop :=
   forall hb w p, 0 <= hb <= max_hash -> 0 <= w -> (0 <= p)%Q ->
-    exists j, choose hb w p = Some j /\ 0 <= j <= w.
+    exists j, ch hb w p = Some j /\ 0 <= j <= w.
 
-Lemma total_refuted : ~ C04_total_full.
+Lemma unrepaired_total_refuted : ~ total_for choose_unrepaired.
 Proof.
   intro H. destruct (H 1 1 (2 # 1)%Q) as (j & Hj & _).
   - split; [lia|]. unfold Z.le. vm_compute. discriminate.
@@ -243,41 +280,13 @@ Proof.
   - vm_compute in Hj. discriminate Hj.
 Qed.
 
-(* finding class: the committee is larger than the total stake *)
-Definition committee_exceeds_total (p : Q) : Prop := (1 < p)%Q.
+Lemma repaired_total : total_for choose.
+Proof. intros hb w p _ Hw _. apply choose_total. exact Hw. Qed.
 
-Lemma total_holds_outside : forall hb w p,
-  ~ committee_exceeds_total p -> 0 <= hb <= max_hash -> 0 <= w -> (0 <= p)%Q ->
-  exists j, choose hb w p = Some j /\ 0 <= j <= w.
+(* the repair changes nothing where the old function returned *)
+Lemma repair_agrees : forall hb w p, (0 <= p)%Q -> (p <= 1)%Q ->
+  choose hb w p = choose_unrepaired hb w p.
 Proof.
-  intros hb w p Hc Hhb Hw Hp. unfold committee_exceeds_total in Hc.
-  assert (p <= 1)%Q by (apply Qnot_lt_le; exact Hc).
-  eexists. split; [apply choose_some; assumption|]. apply choose_with_range. exact Hw.
-Qed.
-
-(* the repaired function: total, in range, the quantile for min(p,1) *)
-Lemma repaired_total : forall hb w p, 0 <= w ->
-  exists j, choose_repaired hb w p = Some j /\ 0 <= j <= w.
-Proof.
-  intros hb w p Hw. eexists. split; [reflexivity|]. apply choose_with_range. exact Hw.
-Qed.
-
-Lemma repaired_quantile : forall hb w p,
-  0 <= hb <= max_hash -> 0 <= w -> (0 < p)%Q ->
-  exists j, choose_repaired hb w p = Some j /\
-            is_quantile (bern (Z.to_nat w) (if Qlt_bool 1 p then 1%Q else p))
-                        (target_of hb) w j.
-Proof.
-  intros hb w p Hhb Hw Hp. eexists. split; [reflexivity|].
-  destruct (Qlt_bool 1 p) eqn:E.
-  - apply choose_with_binom_quantile; try assumption; lra.
-  - apply Qlt_bool_false in E. apply choose_with_binom_quantile; assumption.
-Qed.
-
-Lemma repaired_agrees : forall hb w p, (0 <= p)%Q -> (p <= 1)%Q ->
-  choose_repaired hb w p = choose hb w p.
-Proof.
-  intros hb w p H0 H1. rewrite (choose_some hb w p H0 H1). unfold choose_repaired.
-  assert (E : Qlt_bool 1 p = false) by (apply Qlt_bool_false; exact H1).
-  rewrite E. reflexivity.
+  intros hb w p H0 H1. rewrite (unrepaired_some hb w p H0 H1). unfold choose.
+  rewrite (clamp_p_id p H1). reflexivity.
 Qed.
